@@ -47,8 +47,22 @@ pub struct MergeSc {
     pub right_end_after: u64,
 }
 
+/// One scripted websocket of the builders sub-batch: its successive connections.
+#[derive(Clone, Debug, Serialize, Deserialize)]
+pub struct SocketSc {
+    /// 0 or 1: which exchange channel of the `StreamBuilder` this socket forwards into
+    pub exchange: usize,
+    /// per connection: (initialisation takes ms, items as (delay, id), ends ms after the last item;
+    /// the last connection of a socket stays open)
+    pub conns: Vec<(u64, Vec<(u64, u32)>, u64)>,
+}
+
 #[derive(Clone, Debug, Serialize, Deserialize)]
 pub struct ScenarioD1 {
+    /// builders sub-batch: scripted sockets forwarding into `StreamBuilder` exchange channels, read
+    /// through `StreamBuilder::init` and `MultiStreamBuilder::{add, init}`
+    #[serde(default)]
+    pub sockets: Vec<SocketSc>,
     pub initial_ms: u64,
     pub multiplier: u8,
     pub max_ms: u64,
@@ -190,6 +204,7 @@ impl Sim for SimD1 {
             "connections_end_cleanly(no init failure, no errors)",
             "init_failures_terminal_and_non_terminal_errors",
             "merge_two_streams",
+            "sockets_through_stream_builders",
         ]
     }
     fn default_runs(&self) -> (u64, u64) {
@@ -207,7 +222,21 @@ impl Sim for SimD1 {
         };
         let mut attempts = Vec::new();
         let mut merge_sc = None;
-        if sub == 2 {
+        let mut sockets = Vec::new();
+        if sub == 3 {
+            let n_sock = 2 + rng.usize(2);
+            for _ in 0..n_sock {
+                let n_conn = 1 + rng.usize(4);
+                let conns = (0..n_conn)
+                    .map(|_| {
+                        let m = rng.usize(4);
+                        let items = (0..m).map(|_| (*rng.pick(&[0u64, 0, 1, 3, 20]), val())).collect();
+                        (*rng.pick(&[0u64, 0, 1, 30]), items, *rng.pick(&[0u64, 0, 0, 2, 50]))
+                    })
+                    .collect();
+                sockets.push(SocketSc { exchange: rng.usize(2), conns });
+            }
+        } else if sub == 2 {
             let mut side = |rng: &mut Rng| -> (Vec<(u64, u32)>, u64) {
                 let n = rng.usize(8);
                 let v = (0..n).map(|_| (*rng.pick(&[0u64, 0, 1, 1, 2, 5]), val())).collect();
@@ -258,6 +287,7 @@ impl Sim for SimD1 {
             }
         }
         ScenarioD1 {
+            sockets,
             initial_ms,
             multiplier,
             max_ms,
@@ -283,6 +313,192 @@ impl Sim for SimD1 {
             }};
         }
         let rt = paused_runtime(sc.tokio_seed);
+
+        if !sc.sockets.is_empty() {
+            // ------------------------------------------------ sockets -> StreamBuilder -> MultiStreamBuilder
+            use barter_data::{
+                error::DataError,
+                event::MarketEvent,
+                streams::{
+                    builder::{StreamBuilder, multi::MultiStreamBuilder},
+                    consumer::MarketStreamResult,
+                },
+                subscription::trade::{PublicTrade, PublicTrades},
+            };
+            use barter_integration::channel::Channel;
+            type ItemB = Result<MarketEvent<u32, PublicTrade>, DataError>;
+            type OutB = MarketStreamResult<u32, PublicTrade>;
+            const EXB: [ExchangeId; 2] = [ExchangeId::BinanceSpot, ExchangeId::Kraken];
+            // expected instants
+            struct ExpSock {
+                items: Vec<(u64, u32, usize)>, // (instant, id, connection)
+                ends: Vec<u64>,
+            }
+            let exp: Vec<ExpSock> = sc
+                .sockets
+                .iter()
+                .map(|s| {
+                    let mut t = 0u64;
+                    let mut items = Vec::new();
+                    let mut ends = Vec::new();
+                    let n = s.conns.len();
+                    for (c, (init_ms, its, end_after)) in s.conns.iter().enumerate() {
+                        t += init_ms;
+                        for (d, id) in its {
+                            t += d;
+                            items.push((t, *id, c));
+                        }
+                        if c + 1 < n {
+                            t += end_after;
+                            ends.push(t);
+                        }
+                    }
+                    ExpSock { items, ends }
+                })
+                .collect();
+            // the builders hand out their streams only after every socket's first initialisation:
+            // whatever a faster socket produced earlier waits in its exchange channel until then
+            let t0 = sc.sockets.iter().filter_map(|s| s.conns.first().map(|c| c.0)).max().unwrap_or(0);
+            let horizon = exp.iter().flat_map(|e| e.items.iter().map(|x| x.0).chain(e.ends.iter().copied())).max().unwrap_or(0) + 1_000;
+            let policy = ReconnectionBackoffPolicy { backoff_ms_initial: sc.initial_ms, backoff_multiplier: sc.multiplier, backoff_ms_max: sc.max_ms };
+            let sockets = sc.sockets.clone();
+            let result: Result<Vec<(usize, u64, Option<u32>)>, String> = rt.block_on(async move {
+                let start = tokio::time::Instant::now();
+                let mut builder = StreamBuilder::<u32, PublicTrades> { channels: std::collections::HashMap::new(), futures: Vec::new() };
+                for (si, s) in sockets.into_iter().enumerate() {
+                    let ex = EXB[s.exchange.min(1)];
+                    let exchange_tx = builder.channels.entry(ex).or_insert_with(Channel::<OutB>::new).tx.clone();
+                    let n = s.conns.len();
+                    let queue = Arc::new(Mutex::new(s.conns.into_iter().enumerate().collect::<std::collections::VecDeque<_>>()));
+                    let policy = policy.clone();
+                    // what StreamBuilder::subscribe queues, with the socket script as initialiser
+                    builder.futures.push(Box::pin(async move {
+                        let key = StreamKey::new("market_stream", ex, Some("public_trades"));
+                        let init = move || {
+                            let next = queue.lock().unwrap().pop_front();
+                            async move {
+                                let Some((c, (init_ms, items, end_after))) = next else {
+                                    return std::future::pending::<Result<futures::stream::BoxStream<'static, ItemB>, DataError>>().await;
+                                };
+                                if init_ms > 0 {
+                                    tokio::time::sleep(Duration::from_millis(init_ms)).await;
+                                }
+                                let last = c + 1 == n;
+                                let s = futures::stream::unfold((items.into_iter(), false), move |(mut it, done)| async move {
+                                    if done {
+                                        return None;
+                                    }
+                                    match it.next() {
+                                        Some((d, id)) => {
+                                            if d > 0 {
+                                                tokio::time::sleep(Duration::from_millis(d)).await;
+                                            }
+                                            let ev: ItemB = Ok(MarketEvent {
+                                                time_exchange: Default::default(),
+                                                time_received: Default::default(),
+                                                exchange: ex,
+                                                instrument: si as u32,
+                                                kind: PublicTrade { id: id.to_string(), price: 1.0, amount: 1.0, side: barter_instrument::Side::Buy },
+                                            });
+                                            Some((ev, (it, false)))
+                                        }
+                                        None if last => std::future::pending().await,
+                                        None => {
+                                            if end_after > 0 {
+                                                tokio::time::sleep(Duration::from_millis(end_after)).await;
+                                            }
+                                            None
+                                        }
+                                    }
+                                });
+                                Ok(s.boxed())
+                            }
+                        };
+                        let stream = init_reconnecting_stream(init)
+                            .await?
+                            .with_reconnect_backoff(policy, key)
+                            .with_termination_on_error(|e: &DataError| e.is_terminal(), key)
+                            .with_reconnection_events(ex);
+                        tokio::spawn(stream.forward_to(exchange_tx));
+                        Ok(())
+                    }));
+                }
+                let mut streams = MultiStreamBuilder::<OutB>::new()
+                    .add(builder)
+                    .init()
+                    .await
+                    .map_err(|e| format!("MultiStreamBuilder::init failed: {e}"))?;
+                let mut outs: Vec<(usize, u64, Option<u32>)> = Vec::new();
+                let mut merged = futures::stream::select_all(EXB.iter().enumerate().filter_map(|(e, x)| {
+                    streams.streams.remove(x).map(|rx| rx.into_stream().map(move |o| (e, o)).boxed())
+                }));
+                loop {
+                    match tokio::time::timeout_at(start + Duration::from_millis(horizon), merged.next()).await {
+                        Ok(Some((e, Event::Reconnecting(_)))) => outs.push((e, start.elapsed().as_millis() as u64, None)),
+                        Ok(Some((e, Event::Item(Ok(m))))) => outs.push((e, start.elapsed().as_millis() as u64, m.kind.id.parse().ok())),
+                        Ok(Some((_, Event::Item(Err(_))))) => {}
+                        _ => break,
+                    }
+                }
+                Ok(outs)
+            });
+            drop(rt);
+            stats.steps = exp.iter().map(|e| e.items.len() as u64).sum();
+            stats.sim_time_ms = horizon;
+            #[allow(clippy::never_loop)]
+            'b: loop {
+                let outs = match &result {
+                    Err(e) => {
+                        fail!('b, "B0_builders_init", 0, "{e}");
+                        break 'b;
+                    }
+                    Ok(o) => o,
+                };
+                for (e, t, v) in outs {
+                    log.line(|| format!("t={t} exchange {e} -> {v:?}"));
+                    log.sig(if v.is_some() { "i" } else { "R" });
+                }
+                for (si, (s, x)) in sc.sockets.iter().zip(exp.iter()).enumerate() {
+                    let e = s.exchange.min(1);
+                    // every item of the socket once, in order, at its instant, on its exchange's stream
+                    let got: Vec<(u64, u32)> = outs.iter().filter(|(ee, _, v)| *ee == e && v.is_some_and(|id| x.items.iter().any(|i| i.1 == id))).map(|(_, t, v)| (*t, v.unwrap())).collect();
+                    let want: Vec<(u64, u32)> = x.items.iter().map(|i| (i.0.max(t0), i.1)).collect();
+                    if got != want {
+                        fail!('b, "B1_items_once_in_order", si, "socket {si} (exchange {e}): builder output carries {got:?}, the socket script delivers {want:?}");
+                    }
+                    if outs.iter().any(|(ee, _, v)| *ee != e && v.is_some_and(|id| x.items.iter().any(|i| i.1 == id))) {
+                        fail!('b, "B1_items_once_in_order", si, "socket {si}: an item surfaced on the other exchange's stream");
+                    }
+                    // before the first item of connection c, the socket's own c notices are out
+                    for (t, id, c) in &x.items {
+                        let pos = outs.iter().position(|(_, _, v)| *v == Some(*id)).unwrap_or(0);
+                        let notices_before = outs[..pos].iter().filter(|(ee, _, v)| *ee == e && v.is_none()).count();
+                        if notices_before < *c {
+                            fail!('b, "B2_one_notice_per_dropped_connection", si, "socket {si}: item {id} of its connection {c} (t={t}) is preceded by only {notices_before} reconnecting notices on exchange {e}");
+                        }
+                    }
+                    if !x.ends.is_empty() {
+                        stats.fault("connection_end");
+                    }
+                }
+                for e in 0..2 {
+                    let mut want: Vec<u64> = sc.sockets.iter().zip(exp.iter()).filter(|(s, _)| s.exchange.min(1) == e).flat_map(|(_, x)| x.ends.iter().map(|t| (*t).max(t0))).collect();
+                    want.sort();
+                    let got: Vec<u64> = outs.iter().filter(|(ee, _, v)| *ee == e && v.is_none()).map(|(_, t, _)| *t).collect();
+                    if got != want {
+                        fail!('b, "B2_one_notice_per_dropped_connection", e, "exchange {e}: connections dropped at {want:?} ms, reconnecting notices delivered at {got:?} ms");
+                    }
+                    if want.windows(2).any(|w| w[0] == w[1]) {
+                        stats.probe("two_connections_dropped_same_instant");
+                    }
+                    if sc.sockets.iter().filter(|s| s.exchange.min(1) == e).count() > 1 {
+                        stats.probe("sockets_share_exchange_channel");
+                    }
+                }
+                break;
+            }
+            return Outcome { violation, stats, log_hash: log.hash(), signature: log.signature(), log: log.lines };
+        }
 
         if let Some(m) = &sc.merge {
             // ---------------------------------------------------------------- merge
@@ -609,6 +825,9 @@ impl Sim for SimD1 {
     }
 
     fn shrink_len(&self, sc: &ScenarioD1) -> usize {
+        if !sc.sockets.is_empty() {
+            return sc.sockets.len();
+        }
         match &sc.merge {
             Some(m) => m.left.len() + m.right.len(),
             None => sc.attempts.len(),
@@ -616,6 +835,12 @@ impl Sim for SimD1 {
     }
     fn shrink_remove(&self, sc: &ScenarioD1, from: usize, to: usize) -> ScenarioD1 {
         let mut s = sc.clone();
+        if !s.sockets.is_empty() {
+            if to - from < s.sockets.len() {
+                s.sockets.drain(from..to);
+            }
+            return s;
+        }
         match &mut s.merge {
             Some(m) => {
                 let n = m.left.len();
@@ -635,6 +860,20 @@ impl Sim for SimD1 {
     }
     fn simplify(&self, sc: &ScenarioD1) -> Vec<ScenarioD1> {
         let mut out = Vec::new();
+        for (k, sock) in sc.sockets.iter().enumerate() {
+            if sock.conns.len() > 1 {
+                let mut s = sc.clone();
+                s.sockets[k].conns.pop();
+                out.push(s);
+            }
+            for (c, conn) in sock.conns.iter().enumerate() {
+                if !conn.1.is_empty() {
+                    let mut s = sc.clone();
+                    s.sockets[k].conns[c].1.pop();
+                    out.push(s);
+                }
+            }
+        }
         if sc.handler {
             let mut s = sc.clone();
             s.handler = false;
@@ -660,12 +899,13 @@ impl Sim for SimD1 {
     }
 
     fn rule_text(&self) -> String {
-        "each run = one PRNG-planned connection script (per attempt: init fails after d ms | init succeeds after d ms with a finite sequence of items / non-terminal errors / a terminal error, each after its own virtual delay, then end) and backoff policy (initial 1-1000 ms, multiplier 1-10, max up to 120x initial; failure bursts long enough to reach the cap), executed by the real reconnect combinators on a paused tokio runtime and compared with a script interpreter: R0 a failing first initialisation is an error, R1 every item of every connection exactly once, in order, at its exact virtual instant, up to the end or first terminal error, non-terminal errors passed through or handed to the handler once, R2 exactly one reconnecting notice per connection before anything of the next, R3 init-call instants follow initial x multiplier^k capped at max and reset after a success, R4 the stream never ends by itself, R5 forward_to stops once its receiver is gone. Third sub-batch: merge of two scripted inputs with many simultaneous emissions: M1 per-input order and every item emitted strictly before either input ends, M2 no duplicates, M3 ends exactly when either input ends and stays ended. distinct = distinct output-kind skeleton; non-trivial = a fault (init failure, terminal / non-terminal error, connection end, receiver drop, interleaving) fired AND a probe hit".into()
+        "each run = one PRNG-planned connection script (per attempt: init fails after d ms | init succeeds after d ms with a finite sequence of items / non-terminal errors / a terminal error, each after its own virtual delay, then end) and backoff policy (initial 1-1000 ms, multiplier 1-10, max up to 120x initial; failure bursts long enough to reach the cap), executed by the real reconnect combinators on a paused tokio runtime and compared with a script interpreter: R0 a failing first initialisation is an error, R1 every item of every connection exactly once, in order, at its exact virtual instant, up to the end or first terminal error, non-terminal errors passed through or handed to the handler once, R2 exactly one reconnecting notice per connection before anything of the next, R3 init-call instants follow initial x multiplier^k capped at max and reset after a success, R4 the stream never ends by itself, R5 forward_to stops once its receiver is gone. Third sub-batch: merge of two scripted inputs with many simultaneous emissions: M1 per-input order and every item emitted strictly before either input ends, M2 no duplicates, M3 ends exactly when either input ends and stays ended. Fourth sub-batch: 2-3 scripted sockets (each a reconnecting stream composed exactly as StreamBuilder::subscribe / init_market_stream compose it) forward into the exchange channels of a real StreamBuilder, read through StreamBuilder::init and MultiStreamBuilder::{add, init}: B1 every item of every socket once, in order, at its instant, on its exchange's stream; B2 one reconnecting notice per dropped connection at the instant it dropped, also when two sockets share an exchange channel and drop together. distinct = distinct output-kind skeleton; non-trivial = a fault (init failure, terminal / non-terminal error, connection end, receiver drop, interleaving) fired AND a probe hit".into()
     }
     fn components_real(&self) -> Vec<&'static str> {
         vec![
             "barter_data::streams::reconnect::stream::{init_reconnecting_stream, ReconnectingStream::{with_reconnect_backoff, with_termination_on_error, with_reconnection_events, with_error_handler, forward_to}, ReconnectionState}",
             "barter_integration::stream::merge::merge",
+            "barter_data::streams::builder::{StreamBuilder::init, multi::MultiStreamBuilder::{add, init}} (exchange channels + forwarding tasks)",
             "barter_integration::channel::{mpsc_unbounded, UnboundedTx}",
             "tokio paused clock (backoff sleeps), futures combinators (scan, flatten, repeat_with)",
         ]
@@ -685,6 +925,8 @@ impl Sim for SimD1 {
             "merge_tie",
             "both_inputs_end_same_instant",
             "forward_to_stopped_after_receiver_drop",
+            "two_connections_dropped_same_instant",
+            "sockets_share_exchange_channel",
         ]
     }
     fn assumptions(&self) -> Vec<String> {
